@@ -758,7 +758,12 @@ Definition aux_regions (entry : N) : list nat :=
   | 9%N => [G_PARENT; G_LENIENT; G_SUBDEFAULTS; G_LOADMODE]                               (* parse_object *)
   | 10%N => [G_LOADMODE; G_PARENT; G_LENIENT; G_SUBDEFAULTS]                              (* parse_string *)
   | 11%N => [G_LOADMODE; G_PARENT; G_PATHDIR]                                             (* dump(cfg, skip_default=True) *)
-  | _ => [G_LOADMODE; G_PARENT; G_PATHDIR]                                                (* validate *)
+  | 12%N => [G_LOADMODE; G_PARENT; G_PATHDIR]                                             (* validate *)
+  | 13%N => [G_PARENT; G_LENIENT; G_SUBDEFAULTS; G_LOADMODE; G_PATHDIR]                   (* parse_object of dict-subclass values *)
+  | 14%N => [G_LOADMODE; G_PARENT; G_PATHDIR]                                             (* validate of dict-subclass values *)
+  | 15%N => [G_LOADMODE; G_PARENT; G_PATHDIR]                                             (* dump of dict-subclass values *)
+  | 16%N | 17%N => [G_LOADMODE; G_PARENT; G_PATHDIR; G_CWD; G_PARENT]                     (* save(cfg, path), multi-file mode, parser with parse-time links (top level / in a subcommand) *)
+  | _ => [G_LOADMODE; G_PARENT]                                                           (* dump of a configuration with link targets *)
   end.
 Definition aux_run (entry : N) (fails : bool) : M unit :=
   regions (aux_regions entry) (if fails then fail else ret tt).
